@@ -14,6 +14,8 @@ compute_matching_coeffs_up/_down (+ Couplings.a / compute and the expanded coupl
       a1 d ker/d a1 - ker * sum gamma_k a1^k / sum beta_k a1^k = O(a^order),  ker(a0,a0) = 1;
       ker_exact: the integrand handed to quad equals gamma_m(a)/(-beta(a)), limits (a0,a1), result exp(integral);
       ker_dispatcher: couplings requested at (q2m_ref*xif2, nf) and (q2_to*xif2, nf), kernel called as ker(a0, a1, order, nf) by method.
+(v)   io.runcards.masses (the runner's entry point) with msbar_masses.compute a recorder: hands down the card's masses / couplings / order, the coupling
+      method of the evolution method, the SQUARED matching ratios and xif2 = xif^2; pole scheme: squared values, no computation.
 (iv)  evolve's matching loop (reference ON a wall, target the same wall in the next patch): factors applied = the table of the right direction / nf /
       logarithm with a_s of the upper patch at wall*xif2; m^2 changes by the square of the published zeta_m (refs/decoupling.py) through O(a^(order-1));
       logarithms as required by RG invariance of m^2 in both theories; down o up = 1 through the order.
@@ -273,6 +275,13 @@ class FakeCouplings:
     def a(self, scale, nf=None):
         self.calls.append((scale, nf))
         return [self.avals[int(nf)], SR.var("aem")]
+
+    # the rest of the public interface of Couplings
+    def a_s(self, scale, nf=None):
+        return self.a(scale, nf)[0]
+
+    def a_em(self, scale, nf=None):
+        return self.a(scale, nf)[1]
 
 
 def _steps(nf_from, nf_to):
@@ -806,6 +815,111 @@ def _sampler_bk(rng):
 
 
 # ---------------------------------------------------------------------------
+# (v) runcards.masses: what the runner hands to msbar_masses.compute
+# ---------------------------------------------------------------------------
+def case_runcards(log):
+    rc = sym_module("eko.io.runcards")
+    from eko.io.types import EvolutionMethod
+    from eko.quantities.heavy_quarks import QuarkMassScheme
+    from eko.quantities.couplings import CouplingEvolutionMethod
+
+    log.encode(rc.masses)
+    D = Decider(log)
+
+    def mk(scheme, evmeth):
+        def run():
+            xif = SR.var("xif")
+            assume(xif, ">0")
+            ratios = [SR.var("k_%s" % q) for q in "cbt"]
+            vals = [SR.var("m_%s" % q) for q in "cbt"]
+            scl = [SR.var("q_%s" % q) for q in "cbt"]
+            for x in ratios + vals + scl:
+                assume(x, ">0")
+            hm = [types.SimpleNamespace(value=v, scale=q) for v, q in zip(vals, scl)]
+            heavy = types.SimpleNamespace(masses=hm, masses_scheme=QuarkMassScheme[scheme], matching_ratios=ratios)
+            cinfo = object()
+            theory = types.SimpleNamespace(heavy=heavy, couplings=cinfo, order=(3, 0), xif=xif)
+            calls = []
+
+            def rec_compute(masses_ref, couplings, order, evm, matching, xif2=1.0):
+                calls.append(dict(masses_ref=masses_ref, couplings=couplings, order=order, evm=evm, matching=matching, xif2=xif2))
+                return realnp.array([SR.var("M2_%s" % q) for q in "cbt"], dtype=object)
+
+            real = rc.msbar_masses
+            rc.msbar_masses = types.SimpleNamespace(compute=rec_compute)
+            try:
+                out = rc.masses(theory, evmeth)
+            finally:
+                rc.msbar_masses = real
+            rp = (MOD, "replay_runcards", {"evmeth": evmeth.value})
+            tag = "runcards.masses[%s, %s]" % (scheme, evmeth.value)
+            if scheme == "POLE":
+                ok = len(calls) == 0 and len(out) == 3
+                v = prove_zero(SR(0 if ok else 1), "%s: pole masses need no computation" % tag)
+                D(v, key="runcards.masses:pole", replay=rp, sampler=_sampler_rc)
+                for i in range(3):
+                    v = prove_zero(SR(0) + out[i] - vals[i] * vals[i], "%s: squared pole mass [%d]" % (tag, i))
+                    D(v, key="runcards.masses:pole", replay=rp, sampler=_sampler_rc)
+                log.twin("domain")
+                return
+            want_meth = CouplingEvolutionMethod.EXACT if evmeth.value in ("iterate-exact", "decompose-exact", "perturbative-exact") else CouplingEvolutionMethod.EXPANDED
+            ok = (len(calls) == 1 and calls[0]["masses_ref"] is hm and calls[0]["couplings"] is cinfo and tuple(calls[0]["order"]) == (3, 0) and calls[0]["evm"] is want_meth
+                  and len(calls[0]["matching"]) == 3 and isinstance(out, list) and len(out) == 3)
+            v = prove_zero(SR(0 if ok else 1), "%s: one call of msbar_masses.compute with the card's masses, couplings, order and the coupling method of the evolution method" % tag)
+            D(v, key="runcards.masses:dispatch", replay=rp, sampler=_sampler_rc)
+            if ok:
+                c = calls[0]
+                v = prove_zero(SR(0) + c["xif2"] - xif * xif, "%s: xif2 handed to compute is the square of the card's (linear) scale ratio xif" % tag)
+                D(v, key="runcards.masses:xif2", replay=rp, sampler=_sampler_rc)
+                for i in range(3):
+                    v = prove_zero(SR(0) + c["matching"][i] - ratios[i] * ratios[i], "%s: matching ratio [%d] handed to compute is the square of the card's (linear) ratio" % (tag, i))
+                    D(v, key="runcards.masses:ratios", replay=rp, sampler=_sampler_rc)
+                    v = prove_zero(SR(0) + out[i] - SR.var("M2_%s" % "cbt"[i]), "%s: returns compute's result [%d]" % (tag, i))
+                    D(v, key="runcards.masses:dispatch", replay=rp, sampler=_sampler_rc)
+            log.twin("domain")
+
+        return run
+
+    for scheme in ("MSBAR", "POLE"):
+        for evmeth in (EvolutionMethod.ITERATE_EXACT, EvolutionMethod.TRUNCATED):
+            _r, pm = explore(mk(scheme, evmeth))
+            log.path_stats(pm)
+
+
+def _sampler_rc(rng):
+    return {"xif": rnd(rng, 0.5, 2.0), "k_c": rnd(rng, 0.7, 1.5), "k_b": rnd(rng, 0.7, 1.5), "k_t": rnd(rng, 0.7, 1.5)}
+
+
+def replay_runcards(point, evmeth):
+    """real runcards.masses on a duck-typed theory card vs msbar_masses.compute called directly with the documented squared ratios"""
+    import numpy as np
+    from eko import msbar_masses as mm
+    from eko.io import runcards as rc
+    from eko.io.types import EvolutionMethod
+    from eko.couplings import couplings_mod_ev
+    from eko.quantities.couplings import CouplingsInfo
+    from eko.quantities.heavy_quarks import HeavyQuarkMasses, QuarkMassRef, QuarkMassScheme
+
+    xif = float(point.get("xif", 1.4))
+    ks = [float(point.get("k_%s" % q, 1.0)) for q in "cbt"]
+    if not (0.5 <= xif <= 2 and all(0.6 <= k <= 1.6 for k in ks)) or abs(xif - 1) < 0.05:
+        return None
+    ev = EvolutionMethod(evmeth)
+    hm = HeavyQuarkMasses([QuarkMassRef(v) for v in [(2.0, 2.1), (4.0, 4.1), (175.0, 174.9)]])
+    cinfo = CouplingsInfo(alphas=0.118, alphaem=0.00781, ref=(91.0, 5))
+    heavy = types.SimpleNamespace(masses=hm, masses_scheme=QuarkMassScheme.MSBAR, matching_ratios=ks)
+    theory = types.SimpleNamespace(heavy=heavy, couplings=cinfo, order=(3, 0), xif=xif)
+    try:
+        got = rc.masses(theory, ev)
+        want = mm.compute(hm, cinfo, (3, 0), couplings_mod_ev(ev), [k * k for k in ks], xif2=xif * xif).tolist()
+    except ValueError:
+        return None
+    if not np.allclose(got, want, rtol=1e-7):
+        return {"detail": "runcards.masses(xif=%r, matching ratios %r, %s) = %r, msbar_masses.compute with xif2=xif^2 and squared ratios = %r" % (xif, ks, evmeth, got, want)}
+    return None
+
+
+# ---------------------------------------------------------------------------
 # replays on the real, unpatched code
 # ---------------------------------------------------------------------------
 def _real_sc(order, method, nf_ref, masses2, ratios, alphas=0.118, mu=91.0, scheme="MSBAR"):
@@ -996,15 +1110,16 @@ def replay_compute(point, nf_ref):
 def main():
     chk = H.Check("C18")
     thorough = H.tier() == "thorough"
-    preimport("eko.msbar_masses", "eko.couplings", "refs.decoupling", "refs.rge_literature")
+    preimport("eko.msbar_masses", "eko.couplings", "eko.io.runcards", "refs.decoupling", "refs.rge_literature")
     chk.bounds = ["compute: nf_ref in {3,4,5,6}, all three reference masses, their scales and the coupling reference scale free positive symbols (squares), "
                   "fixed points / evolved values arbitrary positive symbols; every feasible path of the bookkeeping",
                   "solve: expanded coupling method at orders 2-3 and exact at orders 2-4 (quick: order 3; the order-4 expanded closed form on plain symbols exceeds the time cap), start value and reference mass symbolic in (1, 1000) GeV^2, nf=5 patch",
                   "kernels: orders 1-4, symbolic beta_k, gamma_k (all nf); evolve: single thresholds in both directions and the routes 3->5, 6->4, orders 1-4, "
                   "symbolic couplings, logarithms and xif2; RG / published-relation comparison through O(a^(order-1)) for nf_l = 3, 4, 5"]
+    chk.bounds.append("runcards.masses: xif, the three matching ratios, masses and scales free symbols; both schemes; one exact-type and one expanded-type evolution method")
     chk.out_of_claim = ["existence, uniqueness and numerical accuracy of the fixed point found by MINPACK (fsolve) and of QUADPACK (quad)",
                         "the value m_MSbar(m) = m itself (only: the residual handed to fsolve is the fixed-point condition, its root is returned)",
-                        "runcards.masses (a two-line dispatch on the scheme)"]
+                        "construction of a TheoryCard from files (runcards.masses is run on an object carrying the attributes it reads)"]
     chk.stubs = ["scipy.optimize.fsolve -> contract stub: residual called once with a length-1 ndarray holding the start value, returns a length-1 ndarray holding a fresh symbol",
                  "scipy.integrate.quad -> records (integrand, limits, args), returns a fresh symbol", "scipy.integrate.solve_ivp (exact coupling) -> recording stub as in C15",
                  "compute bookkeeping: solve / evolve / Couplings -> recorders returning fresh positive symbols; np.inf -> symbol INF larger than every scale",
@@ -1018,6 +1133,7 @@ def main():
     for method in ("expanded", "exact"):
         for order in ((3,) if not thorough else ((2, 3, 4) if method == "exact" else (2, 3))):
             chk.case("solve.%s.o%d" % (method, order), case_solve, order=order, method=method)
+    chk.case("runcards.masses", case_runcards)
     chk.case("ker.expanded", case_ker_expanded)
     chk.case("ker.exact+dispatcher", case_ker_exact)
     for order in (1, 2, 3, 4):
